@@ -89,6 +89,9 @@ type c09Meta struct {
 	Method pg.Toggles `json:"method,omitempty"`
 	Prog   *pg.Prog   `json:"prog,omitempty"`
 	Target string     `json:"target,omitempty"`
+	// shared-types family: the method is addressed by position (method names repeat across interfaces)
+	IfaceIdx  int `json:"iface_idx,omitempty"`
+	MethodIdx int `json:"method_idx,omitempty"`
 }
 
 func togglesClass(i, m pg.Toggles) string {
@@ -206,7 +209,8 @@ func TestC09(t *testing.T) {
 	env, rec := start(t, "C09", "exploration",
 		"(R1+R2) complete table: all 3^4 x 3^4 assignments of {unset,on,off} to case/getter/stringer/typecast at interface level and at method level, plus all 3x3 x 3x3 assignments of :style and :match, on a probe struct pair whose generated function reveals every effective option; "+
 			"each must print the same function as the canonical file that writes the effective value (interface default, method override) of every option on the method. "+
-			"(R3) rapid-generated multi-method / multi-interface programs with per-method :skip/:map/:conv/:literal lists and hooks: each function must be identical to the one generated from a file that contains only that method (plus referenced converter methods). "+
+			"(R3) rapid-generated multi-method / multi-interface programs with per-method :skip/:map/:conv/:literal lists and hooks: each function must be identical to the one generated from a file that contains only that method (plus referenced converter methods); "+
+			"the same relation over 2-6 methods that all share one struct pair (and its twin) so that every type pair, path and hook is common to them: own toggles per method and interface, nested-path notations, shared hooks (a tenth of them misfits), receiver methods of one name under different receivers, operands declared with the default names. "+
 			"Non-trivial: a combination with at least one interface-level notation, or a program with >= 2 methods whose notations differ; table entries are distinct by construction, programs by text.")
 	defer rec.Done()
 	needBin(t, env)
@@ -236,6 +240,25 @@ func TestC09(t *testing.T) {
 				return hx.Failf("C09|R3|multi-rejected", "%s", msg)
 			}
 			return c09SingleVsMulti(env, m.Prog, target, multi)
+		}
+		if m.Kind == "shared-types" && m.Prog != nil && m.IfaceIdx < len(m.Prog.Ifaces) && m.MethodIdx < len(m.Prog.Ifaces[m.IfaceIdx].Methods) {
+			target := &m.Prog.Ifaces[m.IfaceIdx].Methods[m.MethodIdx]
+			multi, msg, judged := declOf(env, m.Prog.Files(), funcKeyOf(target))
+			if !judged || multi == "" {
+				_ = msg
+				return hx.Pass // the file is rejected as a whole: nothing to compare
+			}
+			alone, msg2, judged2 := declOf(env, c09Only(m.Prog, m.IfaceIdx, m.MethodIdx).Files(), funcKeyOf(target))
+			if !judged2 {
+				return hx.Verdict{OK: true, Inconclusive: true}
+			}
+			if alone == "" {
+				return hx.Failf("C09|shared-types|single-method-file-rejected", "method %s alone is rejected although the multi-method file is accepted: %s", target.Name, msg2)
+			}
+			if alone != multi {
+				return hx.Failf("C09|shared-types|function-text-differs", "method %s: in company\n%s\n--- alone ---\n%s", target.Name, multi, alone)
+			}
+			return hx.Pass
 		}
 		return hx.Failf("harness|bad-meta", "kind %q", m.Kind)
 	}
@@ -301,11 +324,70 @@ func TestC09(t *testing.T) {
 				for _, ms := range styles {
 					for _, mm := range matches {
 						run(pg.Toggles{Style: is, Match: im, Typecast: 1}, pg.Toggles{Style: ms, Match: mm})
+						// the other interface-level toggles survive a method-level override of style / match rule
+						run(pg.Toggles{Style: is, Match: im, Getter: 1, Stringer: 1}, pg.Toggles{Style: ms, Match: mm})
+						run(pg.Toggles{Style: is, Match: im, Getter: 1, Case: 2}, pg.Toggles{Style: ms, Match: mm, Typecast: 1})
 					}
 				}
 			}
 		}
 		rec.SetExhaustive(true)
+	})
+
+	// R3 over methods that share every type pair: whatever one method leaves behind in the run (a cached decision, a
+	// shared option list, a name table) shows in a neighbour that differs from it in one notation
+	rapidRun(t, env, "shared-types", env.Pick(400, 12000), func(rt *rapid.T) {
+		p := genC09Shared(rt)
+		files := p.Files()
+		o, err := pg.RunModule(env, files)
+		if err != nil {
+			rt.Fatalf("%v", err)
+		}
+		out, exit := o.Out, o.Res.Exit
+		o.Cleanup()
+		rec.Class("shared-types:files")
+		if exit != 0 {
+			rec.Class("shared-types:file-rejected (a drawn misfit; nothing to compare)")
+			return
+		}
+		fs, err := pg.InspectOutput(out)
+		if err != nil {
+			return
+		}
+		n := 0
+		for ii := range p.Ifaces {
+			for mi := range p.Ifaces[ii].Methods {
+				target := &p.Ifaces[ii].Methods[mi]
+				f := fs[funcKeyOf(target)]
+				q := c09Only(p, ii, mi)
+				got, msg, judged := declOf(env, q.Files(), funcKeyOf(target))
+				if !judged {
+					continue
+				}
+				rec.Eval()
+				rec.Class("shared-types:comparisons")
+				n++
+				v := hx.Pass
+				switch {
+				case f == nil:
+					v = hx.Failf("C09|shared-types|function-missing", "no function for %s in the multi-method file\n%s", funcKeyOf(target), out)
+				case got == "":
+					v = hx.Failf("C09|shared-types|single-method-file-rejected", "method %s alone is rejected although the file that holds it together with other methods is accepted: %s\n--- multi-method setup ---\n%s", target.Name, msg, p.RenderSetup())
+				case got != f.Decl:
+					v = hx.Failf("C09|shared-types|function-text-differs", "method %s (interface %s): the function generated in company differs from the one generated alone\n  notations: %s\n--- in company ---\n%s\n--- alone ---\n%s\n--- multi-method setup ---\n%s",
+						target.Name, p.Ifaces[ii].Name, strings.Join(target.NotationLines(), "; "), f.Decl, got, p.RenderSetup())
+				}
+				mb, _ := json.Marshal(c09Meta{Kind: "shared-types", Prog: p, IfaceIdx: ii, MethodIdx: mi})
+				rec.Report(rt, v, &hx.Case{Kind: "shared-types", Meta: mb, Files: files})
+			}
+		}
+		if n >= 2 {
+			rec.NonTrivial(p.RenderSetup())
+		}
+		if len(p.Ifaces) > 1 {
+			rec.Class("shared-types:multi-interface-file")
+		}
+		rec.Sample(map[string]any{"shared_types_setup": p.RenderSetup()})
 	})
 
 	// R3: single vs multi
@@ -361,4 +443,188 @@ func TestC09(t *testing.T) {
 		}
 		rec.Sample(progSummary(p))
 	})
+}
+
+
+// ---- R3 over methods that share every type pair ----
+
+const c09SharedTypes = `package home
+
+type PIn struct {
+	A int
+	B string
+	V int
+}
+
+type PIn2 struct {
+	A int
+	B string
+	V int
+}
+
+type PS struct {
+	TC    int
+	ST    LStatus
+	gt_   string
+	Cs    string
+	Plain int
+	Items []int
+	Codes []LStatus
+	In    PIn
+	Same  PIn
+}
+
+func (p PS) Gt() string { return p.gt_ }
+
+// PS2 has the fields of PS (a second receiver type for same-named methods).
+type PS2 struct {
+	TC    int
+	ST    LStatus
+	gt_   string
+	Cs    string
+	Plain int
+	Items []int
+	Codes []LStatus
+	In    PIn
+	Same  PIn
+}
+
+func (p PS2) Gt() string { return p.gt_ }
+
+type PD struct {
+	TC    int64
+	ST    string
+	Gt    string
+	CS    string
+	Plain int
+	Items []LInt
+	Codes []string
+	In    PIn2
+	Same  PIn
+	Extra int
+}
+
+func probeConv(i int) int64            { return int64(i) + 1 }
+func probeConvE(i int) (int64, error)  { return int64(i), nil }
+func probePre(d *PD, s *PS)            {}
+func probePreE(d *PD, s *PS) error     { return nil }
+func probePre2(d *PD, s *PS2)          {}
+func probePreX(d *PD, s *PS, n int)    {}
+func probePostV(d PD, s PS)            {}
+`
+
+// genC09Shared draws 2-6 methods over the same struct pair (PS or its twin PS2 -> PD), spread over 1-3 interfaces with
+// their own interface-level toggles, each method with its own toggles, notations and hooks; methods with a receiver
+// share one name across interfaces. A tenth of the methods carries a hook that does not fit (the file must then be
+// rejected; a run that accepts it is caught by the comparison with the method alone).
+func genC09Shared(t *rapid.T) *pg.Prog {
+	p := &pg.Prog{ExtraFiles: hx.Files{{Name: "home/probe.go", Data: c09SharedTypes}}}
+	nif := rapid.IntRange(1, 3).Draw(t, "nifaces")
+	names := []string{"Convergen", "Aconv", "Zconv"}
+	if rapid.Bool().Draw(t, "ifaceOrder") {
+		names = []string{"Convergen", "Zconv", "Aconv"}
+	}
+	methodNames := []string{"Alpha", "Bravo", "Charlie", "Delta", "Echo", "Foxtrot", "Golf", "Hotel", "India"}
+	perm := rapid.Permutation(methodNames).Draw(t, "methodNames")
+	k := 0
+	recvUsed := map[string]bool{}
+	notePool := [][]string{
+		{"skip", "Same.V"}, {"skip", "Same.V"}, {"skip", "In.B"}, {"skip", "Plain"}, {"skip", "plain"}, {"skip", "/^S/"}, {"skip", "/^(?i)c/"}, {"skip", "/V$/"},
+		{"map", "TC", "Plain"}, {"map", "Plain", "Extra"}, {"map", "In.A", "Same.V"}, {"map", "Gt()", "CS"},
+		{"literal", "Extra", "7"}, {"literal", "Same.A", "5"}, {"literal", "In.V", "9"},
+		{"conv", "probeConv", "TC"}, {"conv", "probeConv", "Plain", "TC"},
+	}
+	for ii := 0; ii < nif; ii++ {
+		it := pg.Iface{Name: names[ii], Marked: names[ii] != "Convergen"}
+		if rapid.IntRange(0, 1).Draw(t, "ifaceOpts") == 0 {
+			it.Opts = pg.GenToggles(t, "iface")
+			if rapid.IntRange(0, 3).Draw(t, "ifaceStyle") == 0 {
+				it.Opts.Style = "arg"
+			}
+		}
+		nm := rapid.IntRange(1, 3).Draw(t, "nmethods")
+		for mi := 0; mi < nm && k < len(perm); mi++ {
+			m := pg.Method{Name: perm[k], SrcType: "PS", DstType: "PD", SrcPtr: true, DstPtr: true}
+			k++
+			m.Opts = pg.GenToggles(t, "method")
+			if rapid.IntRange(0, 3).Draw(t, "style") == 0 {
+				m.Opts.Style = rapid.SampledFrom([]string{"arg", "return"}).Draw(t, "styleV")
+			}
+			m.TogglesLast = rapid.Bool().Draw(t, "togglesLast")
+			m.RetErr = rapid.IntRange(0, 2).Draw(t, "retErr") == 0
+			if rapid.IntRange(0, 3).Draw(t, "twin") == 0 {
+				m.SrcType = "PS2"
+			}
+			if rapid.IntRange(0, 3).Draw(t, "extra") == 0 {
+				m.Extras = []pg.Param{{Type: "int"}}
+			}
+			if rapid.IntRange(0, 4).Draw(t, "named") == 0 {
+				// declares exactly the names the tool uses by default (they must not be "used up" for the neighbours)
+				m.SrcName, m.DstName = "src", "dst"
+				for i := range m.Extras {
+					m.Extras[i].Name = fmt.Sprintf("arg%d", i)
+				}
+			}
+			// one method per interface and receiver type may be a receiver method; they all share one name
+			// (at most one per interface: a second ToPD in the same interface would be a duplicate method; and one per
+			// receiver type in the file: the same method cannot be declared twice on one type)
+			if !recvUsed["iface:"+names[ii]] && !recvUsed["type:"+m.SrcType] && rapid.IntRange(0, 2).Draw(t, "recv") == 0 {
+				{
+					recvUsed["iface:"+names[ii]] = true
+					recvUsed["type:"+m.SrcType] = true
+					m.Recv = rapid.SampledFrom([]string{"r", "src", "p"}).Draw(t, "recvName")
+					if m.SrcName != "" {
+						m.SrcName, m.DstName = "", ""
+						for i := range m.Extras {
+							m.Extras[i].Name = ""
+						}
+					}
+					m.Name = "ToPD"
+				}
+			}
+			nn := rapid.IntRange(0, 3).Draw(t, "nnotes")
+			for i := 0; i < nn; i++ {
+				n := rapid.SampledFrom(notePool).Draw(t, "note")
+				m.Notes = append(m.Notes, pg.Notation{Kind: n[0], Args: n[1:]})
+			}
+			if m.RetErr && rapid.IntRange(0, 3).Draw(t, "convE") == 0 {
+				m.Notes = append(m.Notes, pg.Notation{Kind: "conv", Args: []string{"probeConvE", "Plain", "TC"}})
+			}
+			// hooks: fitting ones mostly, a misfit now and then
+			switch h := rapid.IntRange(0, 11).Draw(t, "hook"); {
+			case h < 3:
+				hook := "probePre"
+				if m.SrcType == "PS2" {
+					hook = "probePre2"
+				}
+				m.Notes = append(m.Notes, pg.Notation{Kind: rapid.SampledFrom([]string{"preprocess", "postprocess"}).Draw(t, "hookPos"), Args: []string{hook}})
+			case h == 3 && m.SrcType == "PS":
+				m.Notes = append(m.Notes, pg.Notation{Kind: "postprocess", Args: []string{"probePostV"}})
+			case h == 4 && m.SrcType == "PS" && m.RetErr:
+				m.Notes = append(m.Notes, pg.Notation{Kind: "preprocess", Args: []string{"probePreE"}})
+			case h == 5 && m.SrcType == "PS" && len(m.Extras) == 1:
+				m.Notes = append(m.Notes, pg.Notation{Kind: "preprocess", Args: []string{"probePreX"}})
+			case h == 6 && m.SrcType == "PS":
+				// possibly a misfit: an error hook on a method without error result, or a hook with an additional
+				// parameter on a method without additional arguments
+				m.Notes = append(m.Notes, pg.Notation{Kind: "preprocess", Args: []string{rapid.SampledFrom([]string{"probePreE", "probePreX"}).Draw(t, "maybeMisfit")}})
+			}
+			it.Methods = append(it.Methods, m)
+		}
+		if len(it.Methods) > 0 {
+			p.Ifaces = append(p.Ifaces, it)
+		}
+	}
+	return p
+}
+
+// c09Only keeps one method (by position) of the program.
+func c09Only(p *pg.Prog, ii, mi int) *pg.Prog {
+	b, _ := json.Marshal(p)
+	var q pg.Prog
+	_ = json.Unmarshal(b, &q)
+	it := q.Ifaces[ii]
+	it.Methods = []pg.Method{it.Methods[mi]}
+	q.Ifaces = []pg.Iface{it}
+	return &q
 }
